@@ -45,6 +45,9 @@ def api_tail(rng, nreac, can_edit=True):
     if rng.random() < 0.15:
         s, m, d = rng.choice(METHODS)
         steps.append({"s": "to_code", "solver": s, "method": m, "device": d})
+    if rng.random() < 0.12:
+        s, m, d = rng.choice(METHODS)
+        steps.append({"s": "export", "solver": s, "method": m, "device": d})
     return steps
 
 
@@ -270,12 +273,51 @@ def fam_api_native_grain(rng, idx, gprefix):
             lines.append(",".join([str(i)] + Rf + Pf + [repr(round((i + 1) * 1.1e-10, 13)), "0.0", "0.0", "10.0", "300.0", str(t), "sim"]))
         files["net.naunet"] = "\n".join(lines) + "\n"
         steps.append({"s": "add_file", "file": "net.naunet", "fmt": "naunet"})
-    if rng.random() < 0.3:
+    if rng.random() < 0.3 and any(pre + "CO" in R + P for R, P, _ in reacs):
         net["ode_modifier"] = {pre + "CO": {"factors": ["-1.0e-15"], "reactants": [[pre + "CO"]]}}
     steps += api_tail(rng, len(reacs), can_edit=not net.get("ode_modifier"))
     tag = "gprefix" if gprefix else "hash"
     return {"id": f"api-grain-{tag}-{idx}", "family": f"api-grain-{tag}", "entry": "api", "name": "simproj", "files": files,
             "net": net, "steps": steps}
+
+
+COOLING_NEEDS = {
+    "CIC_HI": ["H", "e-"], "CIC_HeI": ["He", "e-"], "CIC_HeII": ["He+", "e-"], "CIC_He_2S": ["He+", "e-"],
+    "RC_HII": ["H+", "e-"], "RC_HeI": ["He+", "e-"], "RC_HeII": ["He+", "e-"], "RC_HeIII": ["He++", "e-"],
+    "CEC_HI": ["H", "e-"], "CEC_HeI": ["He+", "e-"], "CEC_HeII": ["He+", "e-"],
+}
+
+
+def fam_api_cooling(rng, idx):
+    """Small thermal networks: the cooling processes are module-level objects shared by every
+    network in the process, while the positions of their reactants differ from network to network."""
+    base = [(["H", "e-"], ["H+", "e-", "e-"]), (["H+", "e-"], ["H"])]
+    he = [(["He", "e-"], ["He+", "e-", "e-"]), (["He+", "e-"], ["He"])]
+    hepp = [(["He+", "e-"], ["He++", "e-", "e-"]), (["He++", "e-"], ["He+"])]
+    h2 = [(["H", "H"], ["H2"]), (["H", "e-"], ["H-"]), (["H-", "H"], ["H2", "e-"])]
+    variant = idx % 4
+    reacs = list(base)
+    if variant >= 1:
+        reacs += he
+    if variant >= 2:
+        reacs += hepp
+    if variant == 3 or rng.random() < 0.4:
+        reacs += h2
+    rng.shuffle(reacs)
+    present = {x for R, P in reacs for x in R + P}
+    cool = [c for c, need in COOLING_NEEDS.items() if all(n in present for n in need)]
+    cool = [c for c in cool if rng.random() < 0.8] or cool[:1]
+    net = {"elements": ["e", "H", "D", "He"], "pseudo_elements": ["Photon"], "cooling": cool}
+    if rng.random() < 0.3:
+        net["required_species"] = ["D"]
+    lines = []
+    for i, (R, P) in enumerate(reacs):
+        Rf = (R + [""] * 3)[:3]
+        Pf = (P + [""] * 5)[:5]
+        lines.append(",".join([str(i)] + Rf + Pf + [repr(round((i + 1) * 2.1e-11, 13)), "-0.5", "0.0", "10.0", "41000.0", "100", "sim"]))
+    steps = [{"s": "new"}, {"s": "add_file", "file": "net.naunet", "fmt": "naunet"}] + api_tail(rng, len(reacs), can_edit=False)
+    return {"id": f"api-cooling{variant}-{idx}", "family": f"api-cooling{variant}", "entry": "api", "name": "simproj",
+            "files": {"net.naunet": "\n".join(lines) + "\n"}, "net": net, "steps": steps}
 
 
 def fam_empty(rng, idx):
@@ -300,6 +342,7 @@ def build_library(seed, tier):
         lib.append(fam_cli_kida(rng, i))
         lib.append(fam_api_native_grain(rng, i, gprefix=False))
         lib.append(fam_api_native_grain(rng, i, gprefix=True))
+        lib.append(fam_api_cooling(rng, i))
     lib.append(fam_krome_primordial(rng, 0, "api"))
     lib.append(fam_krome_primordial(rng, 0, "cli"))
     lib.append(fam_empty(rng, 0))
